@@ -158,8 +158,16 @@ package parsepasses
 //@   props C07
 //@   pure
 //@   ensures[a-loop-variable-is-never-named-ij;C07] varName != "ij"
+// index, isFirst and isLast read the position of a loop, which only that loop
+// binds: their argument must be the bare variable of an enclosing loop, or
+// rendering would look up a name that nothing binds.
+//@ func (*templateChecker).checkLoopFunc
+//@   props C07
+//@   pure
+//@   ensures[a-loop-function-reads-the-variable-of-an-enclosing-loop;C07] (node.Name == "index" || node.Name == "isFirst" || node.Name == "isLast") ==> len(node.Args) == 1 && typeis(node.Args[0], *ast.DataRefNode) && len(unbox(node.Args[0], *ast.DataRefNode).Access) == 0 && exists(i, 0, len(tc.forVars), tc.forVars[i] == unbox(node.Args[0], *ast.DataRefNode).Key)
 //@ func (*templateChecker).checkTemplate
 //@   props C07
+//@   at call (*templateChecker).checkLoopFunc#0 assert[the-function-node-itself-is-checked;C07] arg1 == unbox(node, *ast.FunctionNode)
 //@   at call (*templateChecker).checkLoopVar#0 assert[the-loop's-own-variable-is-what-is-checked;C07] same(arg1, unbox(node, *ast.ForNode).Var)
 //@   nosafety
 //@   noterm
